@@ -625,8 +625,14 @@ def augmented_breaks(seen):
     return False
 
 
-def judge(src, r):
-  """Oracle.  Returns (category, [(fingerprint, what)]) for one worker result."""
+def file_lines(seen):
+  """Number of lines of the text as CPython numbers them: a final newline does not start another line."""
+  return seen.count("\n") + (0 if seen.endswith("\n") or seen == "" else 1)
+
+
+def judge(src, r, stats=None):
+  """Oracle.  Returns (category, [(fingerprint, what)]) for one worker result.  `stats` (a Counter) receives
+  errors_checked / errors_on_last_line / errors_on_last_two_lines for the line clause."""
   seen = seen_text(src)
   st = r["status"]
   if st in ("timeout", "skipped"):
@@ -646,7 +652,7 @@ def judge(src, r):
     return stage, [(f"{stage}:{r['exc']}:{r.get('pytype_frame')}",
                     f"{r['exc']} escapes io.check_or_generate_pyi ({r.get('msg', '')[:120]!r}; innermost pytype frame {r.get('pytype_frame')})")]
   errs = r["errors"]
-  nl = len(seen.split("\n"))
+  nl = file_lines(seen)
   viol = []
   cerrs = [e for e in errs if e[0] == "python-compiler-error"]
   if verdict[0] == "syntax":
@@ -674,10 +680,21 @@ def judge(src, r):
                      f"CPython compiles the text; pytype's preprocess.augment_annotations rewrites it into invalid syntax and reports python-compiler-error at line {e[1]}: {e[5]}"))
       else:
         viol.append(("spurious-compiler-error:other", f"CPython compiles the text but pytype reports python-compiler-error at line {e[1]}: {e[5]}"))
+  # the line clause, for EVERY error of EVERY analysed input: 1 <= line <= number of lines of the file.
+  # Only exception: the single python-compiler-error of a text CPython rejects carries CPython's own line (compared
+  # above; CPython may blame 0 = no line for null bytes, or the line after the last one at an unexpected EOF).
   for e in errs:
     name, line, endline, hasfn, excerpt_ok = e[0], e[1], e[2], e[3], e[4]
-    if line == 0 and verdict[0] == "syntax" and verdict[1] == 0:
-      continue            # CPython itself gives no line (null bytes): `line or 0`
+    if stats is not None:
+      stats["errors_checked"] += 1
+      if line == nl:
+        stats["errors_on_last_line"] += 1
+      if nl - 1 <= line <= nl:
+        stats["errors_on_last_two_lines"] += 1
+      if endline and endline != line:
+        stats["errors_spanning_lines"] += 1
+    if name == "python-compiler-error" and verdict[0] == "syntax" and line == verdict[1]:
+      continue
     if not (1 <= line <= nl):
       viol.append((f"error-line-outside-file:{name}", f"{name} reported at line {line} of a {nl}-line text"))
     elif excerpt_ok is False:
@@ -726,8 +743,21 @@ def build_jobs(res, r, thorough):
   for f in sorted(os.listdir(cdir)) if os.path.isdir(cdir) else []:
     d = json.load(open(os.path.join(cdir, f)))
     jobs.append(("corpus:" + f, "corpus", d["src"], {"check": bool(d.get("check"))}))
-  n_prog = 3000 if thorough else 300
+  n_prog = 3000 if thorough else 250
   feats = collections.Counter()
+  # programs whose LAST statement produces an error (line clause can only fail at the end of the file): every
+  # template with and without a final newline, plus random template/ending/prefix combinations
+  names = sorted(c15_gen.tail_templates())
+  k = 0
+  for nm in names:
+    for ending in ("", "\n"):
+      src, lab = c15_gen.tail_program(r, nm, ending, prefix=False)
+      jobs.append((f"tail{k}:{lab}", "tail-error-construct", src, {"check": k % 3 == 0}))
+      k += 1
+  for _ in range(1200 if thorough else 40):
+    src, lab = c15_gen.tail_program(r)
+    jobs.append((f"tail{k}:{lab}", "tail-error-construct", src, {"check": k % 3 == 0}))
+    k += 1
   kinds = collections.Counter()
   progs = []
   for i in range(n_prog):
@@ -811,10 +841,10 @@ def search(res, r, thorough):
   found = collections.OrderedDict()    # fingerprint -> (what, id)
   n_compiling = n_noncompiling = 0
   err_names = collections.Counter()
-  opnames = set()
+  line_stats = collections.Counter()
   for jid, kind, src, meta in jobs:
     rr = results.get(jid, {"status": "skipped"})
-    cat, viol = judge(src, rr)
+    cat, viol = judge(src, rr, line_stats)
     cats[cat] += 1
     per_kind[kind][cat.split(":")[0]] += 1
     if cat in ("timeout", "skipped", "harness-error") or cat.startswith("not-explorable"):
@@ -886,10 +916,12 @@ def search(res, r, thorough):
       "timeouts": cats.get("timeout", 0), "skipped_for_budget": cats.get("skipped", 0),
       "compiling_inputs_explored": n_compiling, "non_compiling_inputs_explored": n_noncompiling,
       "error_names_reported": dict(err_names.most_common(25)),
+      "line_clause": dict(line_stats),
       "distinct_violation_fingerprints": list(found), "unlisted_fingerprints": [fp for fp in found if fp not in res.known],
   }
   common.log(f"[C15] search: {len(jobs)} inputs in {wall:.0f}s; categories {dict(cats)}; "
-             f"timeouts={cats.get('timeout', 0)} skipped={cats.get('skipped', 0)}; fingerprints={list(found)}")
+             f"timeouts={cats.get('timeout', 0)} skipped={cats.get('skipped', 0)}; line clause {dict(line_stats)}; "
+             f"fingerprints={list(found)}")
 
 
 # =========================================================================================
@@ -900,7 +932,10 @@ def run(res):
               "decorators, comprehensions, star-expressions, walrus, f-strings, nested defs/classes, global/nonlocal, del, "
               "assert, lambda defaults, chained comparisons, PEP 695), one or two token-level mutations of each "
               "(delete/insert/swap/replace/duplicate token, operator/keyword swaps, line delete/dup/swap/indent), and "
-              "import-free top-level functions/classes cut from CPython 3.12's stdlib, each run through the real "
+              "import-free top-level functions/classes cut from CPython 3.12's stdlib, and ~55 templates (x file endings x random "
+              "prefixes) whose LAST statement produces an error (implicit return None under -> int/str/List[int] after if/for/"
+              "while/try/with/match, nested/async/decorated/method, multi-line calls, decorators, directives, type comments; a "
+              "quarter of the random programs also end in one), each run through the real "
               "io.check_or_generate_pyi (3/4 infer, 1/4 check mode) in worker processes with a per-file timeout. "
               "Non-trivial = the run finished and was judged (not typeshed-blocked, not timed out); distinct by source text. "
               "CORRESPONDENCE: every exception class of the generated universe x line values x nofail x check injected into "
